@@ -9,6 +9,7 @@ spec fn wf(p: Point) -> bool { canon(p.x@) && canon(p.y@) && canon(p.z@) }
 spec fn coords_le_p(p: Point) -> bool { val4(p.x@) < P() && val4(p.y@) <= P() && val4(p.z@) < P() }
 spec fn abs(p: Point) -> Pt { abs_pt(p.x@, p.y@, p.z@) }
 spec fn valid(p: Point) -> bool { wf(p) && on_curve(abs(p)) }
+spec fn d13_case(a: Point, b: Point) -> bool { abs(a) == abs(b) && abs(a) != Pt::Inf && !(a.x@ == b.x@ && a.y@ == b.y@ && a.z@ == b.z@) }
 // SEC1 / GB/T 32918.1 4.2.9 point encodings
 pub open spec fn sec1(q: Pt, compress: bool) -> Seq<u8> {
     match q {
@@ -260,10 +261,12 @@ impl Point {
 
     #[verifier::external_body]
     fn point_add(&self, p: &Point) -> (r: Point)
-        requires valid(*self), valid(*p),
-            // carve-out for known finding D13: equal points must come in the same representation
-            (abs(*self) == abs(*p) && abs(*p) != Pt::Inf) ==> (self.x@ == p.x@ && self.y@ == p.y@ && self.z@ == p.z@)
-        ensures valid(r), abs(r) == g_add(abs(*self), abs(*p))
+        requires valid(*self), valid(*p)
+        ensures wf(r),
+            !d13_case(*self, *p) ==> valid(r) && abs(r) == g_add(abs(*self), abs(*p)),
+            // known finding D13: the same point in two different Jacobian representations is not recognised as a doubling;
+            // the generic formulas then return (0, 0, 0), i.e. "infinity", instead of 2P
+            d13_case(*self, *p) ==> val4(r.z@) == 0
     {
         // 0 + p2 = p2
         if self.is_zero() {
